@@ -1,0 +1,25 @@
+//go:build verif
+// +build verif
+
+package core
+
+import "time"
+
+// WithPurgeUploaderInterval sets how often the index builder looks for a new chunk of keys to upload
+// (runtime verification only: the regular interval is 5 minutes, with no option to change it).
+func WithPurgeUploaderInterval(d time.Duration) PurgeOption {
+	return func(o *purgeOptions) {
+		if d > 0 {
+			o.uploaderInterval = d
+		}
+	}
+}
+
+// WithPurgeMonitorInterval sets the interval of progress reports (runtime verification only).
+func WithPurgeMonitorInterval(d time.Duration) PurgeOption {
+	return func(o *purgeOptions) {
+		if d > 0 {
+			o.monitorInterval = d
+		}
+	}
+}
